@@ -17,6 +17,7 @@ mod refprog;
 mod refmodel;
 mod render;
 mod rng;
+mod static_props;
 mod verdict;
 
 use verdict::{Ctx, Tier};
@@ -77,6 +78,7 @@ fn main() {
         match prop {
             "C01" | "C02" => layout_props::replay(&mut ctx, prop, &case),
             "C03" => c03::replay(&mut ctx, &case),
+            "C14" | "C16" | "C17" => static_props::replay(&mut ctx, prop, &case),
             "C18" => c18::replay(&mut ctx, &case),
             _ => {
                 eprintln!("no replay for {prop}");
@@ -90,6 +92,9 @@ fn main() {
     match prop {
         "C01" | "C02" => layout_props::run(&mut ctx, prop),
         "C03" => c03::run(&mut ctx),
+        "C14" => static_props::run_c14(&mut ctx),
+        "C16" => static_props::run_c16(&mut ctx),
+        "C17" => static_props::run_c17(&mut ctx),
         "C18" => c18::run(&mut ctx),
         _ => {
             eprintln!("unknown property {prop}");
